@@ -66,6 +66,14 @@ func genAnyPayload(r *wk.Rand, depth int) any {
 		return l
 	default:
 		n := r.Intn(4)
+		if r.Chance(30) {
+			// maps keyed by integers are values of "any" as well (and travel as CBOR maps with integer keys)
+			im := map[any]any{}
+			for i := 0; i < n+1; i++ {
+				im[int64(r.Intn(40))-5] = genAnyPayload(r, depth+1)
+			}
+			return im
+		}
 		m := map[string]any{}
 		for i := 0; i < n; i++ {
 			m[fmt.Sprintf("k%d", r.Intn(20))] = genAnyPayload(r, depth+1)
